@@ -269,21 +269,36 @@ def handle (ws : List String) : String :=
          let lines := if lines.getLast? == some [] then lines.dropLast else lines
          "ok " ++ " ".intercalate ((Lex.contents lines).map fun c => hex (String.ofList c)))
   | "kwmodel" :: toks =>
-      -- option tokens of a cell card (lower-cased, '=' and parentheses already blanked) -> keyword record
+      -- option tokens of a cell card (lower-cased, '=' and parentheses already blanked) -> keyword record; `chk=`
+      -- lists the numeric arguments of every FILL / TRCL keyword met, in order (each is checked when it is read, even
+      -- if a later keyword replaces it)
+      let chk := match groupTokens toks with
+        | .ok items =>
+            let parts := items.filterMap fun (it : Item) => match it with
+              | .fill st _ ps => some (s!"{if st then 1 else 0}" ++ String.join (ps.map fun x => ";" ++ x))
+              | .fillArr st _ _ ps => some (s!"{if st then 1 else 0}" ++ String.join (ps.map fun x => ";" ++ x))
+              | .trcl st ps => some (s!"{if st then 1 else 0}" ++ String.join (ps.map fun x => ";" ++ x))
+              | _ => none
+            if parts.isEmpty then "-" else "|".intercalate parts
+        | .error _ => "-"
       (match parseKeywords toks with
        | .error .pop => "ok error pop"
-       | .error .arrayFill => "ok error arrayfill"
+       | .error .badRange => "ok error badrange"
+       | .error .arrayCount => "ok error arraycount"
+       | .error .arrayShorthand => "ok outside-model arrayshorthand"
        | .error .badLat => "ok error badlat"
        | .ok k =>
          let o (x : Option String) := match x with | some v => v | none => "-"
          let imp := if k.imp.isEmpty then "-" else ",".intercalate (k.imp.map fun (p, v) => s!"{hex p}:{v}")
          let fill := match k.fill with
-           | some (st, u, ps) => s!"{if st then 1 else 0},{u}" ++ String.join (ps.map fun x => "," ++ x)
+           | some (.simple st u ps) => s!"{if st then 1 else 0},{u}" ++ String.join (ps.map fun x => "," ++ x)
+           | some (.arr st rs us ps) =>
+               s!"A{if st then 1 else 0},{";".intercalate rs},{";".intercalate us}" ++ String.join (ps.map fun x => "," ++ x)
            | none => "-"
          let trcl := match k.trcl with
            | some (st, ps) => s!"{if st then 1 else 0}" ++ String.join (ps.map fun x => "," ++ x)
            | none => "-"
-         s!"ok imp={imp} u={o k.u} mat={o k.mat} rho={o k.rho} lat={o k.lat} fill={fill} trcl={trcl}")
+         s!"ok imp={imp} u={o k.u} mat={o k.mat} rho={o k.rho} lat={o k.lat} fill={fill} trcl={trcl} chk={chk}")
   | "trmodel" :: mn :: rest =>
       -- card carrying a transformation: 12 numbers (O, B) first, then the card's parameters
       (match rest.mapM parseFloat? with
